@@ -501,6 +501,24 @@ func (f *Frame) applyContract(c *Contract, callee *ssa.Function, cc *ssa.CallCom
 			e.havocLoc(st, ml)
 		}
 	}
+	if c.SkipFrame != "" && len(c.Modifies) == 0 && !c.Pure {
+		// a callee whose frame is not verified and that names no modifies set: its callers must not rely on "nothing
+		// changed" - the objects its pointer arguments (receiver included) point to become arbitrary, constrained only
+		// by the callee's postconditions
+		for _, a := range args {
+			if a.T == nil {
+				continue
+			}
+			if p, ok := a.T.Underlying().(*types.Pointer); ok {
+				if pt, ok := e.ptrTerm(a); ok {
+					if _, isStruct := p.Elem().Underlying().(*types.Struct); isStruct {
+						e.havocLoc(st, modLoc{kind: "obj", base: pt, rootT: p.Elem()})
+					}
+				}
+			}
+		}
+		e.assumed["a callee with `unchecked frame` and no modifies clause is assumed to write only the objects its pointer arguments point to (made arbitrary at the call) and fresh objects"] = true
+	}
 	if !c.Pure {
 		e.tick(st)
 	}
@@ -728,7 +746,11 @@ func (f *Frame) builtin(name string, cc *ssa.CallCommon, args []Val, st *State, 
 		}
 		return Val{T: rt}
 	case "panic":
-		e.ob(f, "no-panic.explicit", "explicit panic is unreachable", st.cond, "false", pos)
+		if e.C != nil && e.C.SkipPanics != "" {
+			e.skippedPanics++
+		} else {
+			e.ob(f, "no-panic.explicit", "explicit panic is unreachable", st.cond, "false", pos)
+		}
 		st.dead = true
 		return Val{T: rt}
 	case "recover":
